@@ -655,7 +655,7 @@ Qed.
 
 Definition lbl_eqb_simple (a b : lbl) : bool :=
   match a, b with
-  | LSeeClosed, LSeeClosed | LRecvErr, LRecvErr | LRecvPerr, LRecvPerr => true
+  | LSeeClosed, LSeeClosed | LRecvErr, LRecvErr | LRecvPerr, LRecvPerr | LOpenC, LOpenC => true
   | LIfClosed x, LIfClosed y | LCasClosed x, LCasClosed y | LReadDbTr x, LReadDbTr y | LIfTrOpen x, LIfTrOpen y => Bool.eqb x y
   | _, _ => false
   end.
@@ -673,7 +673,8 @@ Definition has_test_pair {P} (es : list (lbl * P)) : bool :=
   (has_lbl (LIfClosed true) es && has_lbl (LIfClosed false) es) ||
   (has_lbl (LCasClosed true) es && has_lbl (LCasClosed false) es) ||
   (has_lbl (LReadDbTr true) es && has_lbl (LReadDbTr false) es) ||
-  (has_lbl (LIfTrOpen true) es && has_lbl (LIfTrOpen false) es).
+  (has_lbl (LIfTrOpen true) es && has_lbl (LIfTrOpen false) es) ||
+  (has_lbl LSeeClosed es && has_lbl LOpenC es).   (* select { case <-closeC: ; default: } *)
 
 Inductive wait_class := WNone    (* not a wait: some edge never blocks *)
                       | WClose   (* a select that lists closeC *)
@@ -691,13 +692,13 @@ Definition classify {P} (es : list (lbl * P)) : wait_class :=
    W3        <-writeAckC         the lock holder acknowledges every merged writer in unlockWrite (LAckOne)
    WMs       writeMergedC<-true  the requester is waiting in W2
    WU        unlockWrite         writeAckC<- / writeMergedC<-false: the partners wait in W3 / W2; else a release
-   LB1 CM1 DC0 TP1   tr.lk.Lock()       a mutex: its holders never wait for the write lock or tr.lk
+   LB1 CM1 DC0 TP1 OT6   tr.lk.Lock()       a mutex: its holders never wait for the write lock or tr.lk
    CM4       compCommitLk.Lock() a mutex: its holders only wait with closeC / error exits
    CL4       Close: writeLockC<- every holder of the write lock releases it once closeC is closed
    CL5       closeW.Wait()       both compaction goroutines leave at closeC *)
 Definition client_unconditional (pc : cpc) : bool :=
   match pc with
-  | W2 | W3 | WMs _ | WU _ | LB1 | CM1 _ | DC0 _ | TP1 | CM4 _ | CL4 | CL5 => true
+  | W2 | W3 | WMs _ | WU _ | LB1 | CM1 _ | DC0 _ | TP1 | OT6 _ | CM4 _ | CL4 | CL5 => true
   | _ => false
   end.
 Definition m_unconditional (pc : mpc) : bool := match pc with MC _ | MAck | MX => true | _ => false end.
@@ -733,20 +734,21 @@ Proof. intro pc; destruct pc; dparams; simpl; split; intro; try discriminate; re
 
 (* ------------------------------------------------------------------ the code before the repairs: leaks *)
 
-Definition unfixed_D4a := {| fixD4a := false; fixD4b := true; fixD4c := true; fixD7 := true; fixD8 := true |}.
-Definition unfixed_D4b := {| fixD4a := true; fixD4b := false; fixD4c := true; fixD7 := true; fixD8 := true |}.
-Definition unfixed_D4c := {| fixD4a := true; fixD4b := true; fixD4c := false; fixD7 := true; fixD8 := true |}.
-Definition unfixed_D7 := {| fixD4a := true; fixD4b := true; fixD4c := true; fixD7 := false; fixD8 := true |}.
-Definition unfixed_D8 := {| fixD4a := true; fixD4b := true; fixD4c := true; fixD7 := true; fixD8 := false |}.
+Definition unfixed_D4a := {| fixD4a := false; fixD4b := true; fixD4c := true; fixD7 := true; fixD8 := true; fixD9 := true |}.
+Definition unfixed_D4b := {| fixD4a := true; fixD4b := false; fixD4c := true; fixD7 := true; fixD8 := true; fixD9 := true |}.
+Definition unfixed_D4c := {| fixD4a := true; fixD4b := true; fixD4c := false; fixD7 := true; fixD8 := true; fixD9 := true |}.
+Definition unfixed_D7 := {| fixD4a := true; fixD4b := true; fixD4c := true; fixD7 := false; fixD8 := true; fixD9 := true |}.
+Definition unfixed_D9 := {| fixD4a := true; fixD4b := true; fixD4c := true; fixD7 := true; fixD8 := true; fixD9 := false |}.
+Definition unfixed_D8 := {| fixD4a := true; fixD4b := true; fixD4c := true; fixD7 := true; fixD8 := false; fixD9 := true |}.
 
 (* a user transaction: OpenTransaction succeeds, Commit's three attempts fail, Commit returns *)
 Definition trace_D4a : list action :=
-  [ACli 0 4 0; ACli 0 1 0; ACli 0 0 0; ACli 0 2 0; ACli 0 1 0; ACli 0 0 0; ACli 0 0 0;
+  [ACli 0 4 0; ACli 0 1 0; ACli 0 0 0; ACli 0 2 0; ACli 0 1 0; ACli 0 0 0; ACli 0 1 0; ACli 0 0 0;
    ACli 0 0 0; ACli 0 1 0; ACli 0 0 0; ACli 0 1 0; ACli 0 1 0; ACli 0 0 0;
    ACli 0 1 0; ACli 0 0 0; ACli 0 1 0; ACli 0 0 0; ACli 0 1 0; ACli 0 0 0; ACli 0 0 0; ACli 0 0 0; ACli 0 0 0].
 (* DB.Write of a batch larger than the write buffer: internal transaction, Commit fails, Write returns *)
 Definition trace_D4b : list action :=
-  [ACli 0 2 0; ACli 0 2 0; ACli 0 0 0; ACli 0 1 0; ACli 0 0 0; ACli 0 2 0; ACli 0 1 0; ACli 0 0 0; ACli 0 0 0;
+  [ACli 0 2 0; ACli 0 2 0; ACli 0 0 0; ACli 0 1 0; ACli 0 0 0; ACli 0 2 0; ACli 0 1 0; ACli 0 0 0; ACli 0 1 0; ACli 0 0 0;
    ACli 0 0 0; ACli 0 0 0; ACli 0 0 0; ACli 0 0 0;
    ACli 0 1 0; ACli 0 0 0; ACli 0 1 0; ACli 0 1 0; ACli 0 0 0;
    ACli 0 1 0; ACli 0 0 0; ACli 0 1 0; ACli 0 0 0; ACli 0 1 0; ACli 0 0 0; ACli 0 0 0; ACli 0 0 0; ACli 0 0 0; ACli 0 0 0].
